@@ -241,7 +241,14 @@ func run(c *runner.Ctx) {
 							}
 							for _, e := range eps {
 								var err error
-								pan, msg, site := runner.Guard(func() { err = e.f() })
+								pan, msg, site := runner.Guard(func() {
+									// two refused calls first, each carrying rule sets - unscoped, for the outer and for the inner type -
+									// that no value satisfies (round 13): a refused call leaves nothing for the call that follows
+									refusedRM := valid.RM{"Name": "required|left by a refused call,le=-5|left by a refused call", "Code": "eq=-3|left by a refused call", "Tel": "eq=-3|left by a refused call", "In": "le=-5|left by a refused call"}
+									_ = valid.NewVStruct().SetRule(refusedRM).SetRule(refusedRM, reflect.New(tp.outer).Interface()).SetRule(refusedRM, reflect.New(tp.inner).Interface()).Valid(nil)
+									_ = valid.NewVStruct().SetRule(refusedRM, reflect.New(tp.inner).Interface()).SetRule(refusedRM).Valid(reflect.Zero(reflect.PtrTo(tp.outer)).Interface())
+									err = e.f()
+								})
 								differ := len(os.rm) > 0 && len(is.rm) > 0
 								c.Done(differ, 1)
 								actual := ""
